@@ -79,33 +79,34 @@ def maxBy : AList Nat (List Nat) → Option (Nat × List Nat)
     | none => some p
     | some q => if q.2.length > p.2.length then some q else some p
 
+/-- the tail of `check_schedule`: ask the longest queue for half of it, or shut the idle nodes down -/
+def stealOrShutdown (s1 : State τ) (e1 : Env) (up1 : AList Nat (List Nat)) (idle1 : List Nat) :
+    Except PyErr (State τ × Env) :=
+  if s1.stealReq.isSome then .ok (s1, e1)
+  else
+    match maxBy up1 with
+    | none => .ok (s1, e1.shutdownAll idle1)
+    | some (victim, book) =>
+      let numSteal : Nat := min (book.length / 2) (book.length - minPending)
+      if numSteal = 0 then .ok (s1, e1.shutdownAll idle1)
+      else
+        (e1.sendSteal victim (book.drop (book.length - numSteal))).bind fun e2 =>
+          .ok ({ s1 with stealReq := some victim }, e2)
+
 /-- worksteal.py `check_schedule` (with the repair: nothing is done before the collection is agreed) -/
 def checkSchedule (s : State τ) (e : Env) : Except PyErr (State τ × Env) :=
   if s.collection.isNone then .ok (s, e)
   else
     let idle0 := idleOf (nodesUp s e)
     if idle0.isEmpty then .ok (s, e)
-    else do
-      let (s1, e1) ←
-        if !s.pending.isEmpty then distribute s e idle0 else .ok (s, e)
-      -- `nodes_up` holds references to the live lists: recompute from the new books,
-      -- restricted to the nodes that were up when the call started
-      let up1 := s1.node2pending.filter (fun p => !e.flags.shuttingDown p.1)
-      let idle1 := if !s.pending.isEmpty then idleOf up1 else idle0
-      if !s.pending.isEmpty && idle1.isEmpty then .ok (s1, e1)
-      else if s1.stealReq.isSome then .ok (s1, e1)
-      else
-        let numSteal : Nat :=
-          match maxBy up1 with
-          | none => 0
-          | some (_, book) => min (book.length / 2) (book.length - minPending)
-        if numSteal = 0 then .ok (s1, e1.shutdownAll idle1)
-        else
-          match maxBy up1 with
-          | none => .error .assertion
-          | some (victim, book) => do
-            let e2 ← e1.sendSteal victim (book.drop (book.length - numSteal))
-            .ok ({ s1 with stealReq := some victim }, e2)
+    else if s.pending.isEmpty then stealOrShutdown s e (nodesUp s e) idle0
+    else
+      (distribute s e idle0).bind fun r =>
+        -- `nodes_up` holds references to the live lists: recompute from the new books,
+        -- restricted to the nodes that were up when the call started (flags do not change meanwhile)
+        let up1 := nodesUp r.1 e
+        let idle1 := idleOf up1
+        if idle1.isEmpty then .ok (r.1, r.2) else stealOrShutdown r.1 r.2 up1 idle1
 
 def markComplete (s : State τ) (e : Env) (n i : Nat) : Except PyErr (State τ × Env) := do
   let book ← s.node2pending.get n
@@ -129,22 +130,24 @@ def removePending (s : State τ) (e : Env) (n : Nat) (is : List Nat) : Except Py
                        pending := s.pending ++ is }
     checkSchedule s' e
 
-def removeNode (s : State τ) (e : Env) (n : Nat) : Except PyErr (State τ × Env × Option τ) := do
-  let (book, n2p) ← s.node2pending.pop n
-  let s1 := { s with node2pending := n2p }
-  let (crash, rest) ← match book with
-    | [] => (pure (none, []) : Except PyErr (Option τ × List Nat))
-    | i :: rest =>
-      match s1.collection with
-      | none => .error .assertion
-      | some col =>
-        match col[i]? with
-        | none => .error .indexError
-        | some item => pure (some item, rest)
-  let s2 := { s1 with pending := s1.pending ++ rest,
-                      stealReq := if s1.stealReq = some n then none else s1.stealReq }
-  let (s3, e3) ← checkSchedule s2 e
-  .ok (s3, e3, crash)
+/-- the crashed test (head of the dead node's book) and the tests to give back -/
+def crashOf (collection : Option (List τ)) : List Nat → Except PyErr (Option τ × List Nat)
+  | [] => .ok (none, [])
+  | i :: rest =>
+    match collection with
+    | none => .error .assertion
+    | some col =>
+      match col[i]? with
+      | none => .error .indexError
+      | some item => .ok (some item, rest)
+
+def removeNode (s : State τ) (e : Env) (n : Nat) : Except PyErr (State τ × Env × Option τ) :=
+  (s.node2pending.pop n).bind fun p =>
+    let s1 := { s with node2pending := p.2 }
+    (crashOf s1.collection p.1).bind fun cr =>
+      let s2 := { s1 with pending := s1.pending ++ cr.2,
+                          stealReq := if s1.stealReq = some n then none else s1.stealReq }
+      (checkSchedule s2 e).bind fun r => .ok (r.1, r.2, cr.1)
 
 def collectionDiffs (first : Nat) (col : List τ) (rest : AList Nat (List τ)) : List SOut :=
   (rest.filter (fun p => p.2 ≠ col)).map (fun p => SOut.collectReport p.1 first)
